@@ -72,10 +72,12 @@ def _run(ctx, pid, thorough, rng, exe, tmp):
         for i in range(40 if thorough else 8):
             c = gen_cfg(rng); tree, _ = gen_tree(rng, c, deep=(i % 2 == 0))
             s = g.Session("nt%d" % i, c, os.path.join(tmp, "nt%d" % i), tree=tree, full=True); s.nodetab_events = 0.45
+            s.lists()
             for _ in range(40):
                 if rng.random() < 0.6: s.up(*g.rand_uplink(rng, s))
                 else:
                     fn, sa, iv = g.rand_command(rng, s); s.hl(fn, sa, iv)
+                if rng.random() < 0.25: s.lists()          # connected-entity lists follow the node-table notices
             s.flush(); sessions.append(s.end())
     res = drv.run(exe, [s.s for s in sessions], timeout=120)
     items = []
